@@ -9,9 +9,11 @@
 #define VNS Avoid
 #include "vpsc_drive.h"
 #include "vpsc_recs.h"
+#include "vpsc_redeq.h"
 
 int main(int argc, char **argv)
 {
     if (argc >= 4 && std::string(argv[1]) == "recs") return recsMode(argv[2], argv[3]);
+    if (argc >= 4 && std::string(argv[1]) == "redeq") return redeqMode(argv[2], argv[3]);
     return 2;
 }
